@@ -255,7 +255,12 @@ namespace options
             }
         }
 
-        s << "usage: " << app_name_;
+        // The synopsis is wrapped relative to the start of its own line. Format it in a private
+        // stream: the column must not depend on what the caller's stream already contains, nor
+        // on whether that stream is seekable at all (std::cout is not).
+        std::stringstream head;
+
+        head << "usage: " << app_name_;
 
         std::stringstream usage;
 
@@ -295,8 +300,10 @@ namespace options
         {
             out = out.substr(1);
 
-            nitro::io::terminal::format_padded(s, out, 8 + app_name_.size(), 80);
+            nitro::io::terminal::format_padded(head, out, 8 + app_name_.size(), 80);
         }
+
+        s << head.str();
 
         s << std::endl << std::endl;
 
